@@ -246,7 +246,9 @@ class ConvexSpheropolygon(Shape2D):
 
         # get the shape kernel for this shape by adjusting indices of shape kernel
         # for the new vertices
-        for i in range(len(angle_ranges)):
+        # (With zero radius there are no rounded corners; the quadratic below would
+        # take the square root of rounding noise at the vertex directions.)
+        for i in range(len(angle_ranges) if self.radius > 0 else 0):
             theta1, theta2 = angle_ranges[i]
             if theta2 < theta1:  # case the angle range crosses the 2pi boundary
                 indices = np.where((angles >= theta1) | (angles <= theta2))
